@@ -19,6 +19,7 @@ CFG = """SPECIFICATION Spec
 CONSTANTS
   IsCase <- MCCase
   KnownDefects = {%(defects)s}
+  MaxRoundsNoSoE = %(maxrounds)d
   Log <- LogLast
   NsFull = {%(full)s}
   NsSampled = {%(sampled)s}
@@ -28,6 +29,7 @@ CONSTANTS
   NsAlpha = {%(alpha)s}
   AlphaBytes = {%(abytes)s}
   NsBig = {%(big)s}
+  NsFb = {%(nsfb)s}
   Modes = {%(modes)s}
 VIEW cvars
 %(rest)s
@@ -63,33 +65,47 @@ def run(ctx):
         "specification says signed (or over a foreign message)",
         "the nodes coordinator returns a consensus group of distinct members (stubbed: fresh BLS keys per group size); "
         "member 0 is the leader",
-        "when fallbackHeaderValidator.ShouldApplyFallbackValidation(header) is true the required quorum is the protocol's "
-        "fallback threshold n/2+1 (a deliberate rule for start-of-epoch metablocks), otherwise 2n/3+1",
+        "the required quorum is 2n/3+1, except that the protocol's fallback threshold n/2+1 is allowed exactly when the documented "
+        "fallback condition holds (transcribed from fallback/headerValidator.go at HEAD as FallbackApplies: start-of-epoch "
+        "METAblock, previous metablock available in pool or storage, SIGNED round difference >= "
+        "core.MaxRoundsWithoutCommittedStartInEpochBlock, constant read from the tree); the harness uses the real "
+        "fallback.NewFallbackHeaderValidator over a headers pool stub / storage mock holding the previous headers",
         "bounds: exhaustive bitmaps for groups of 1..%s members, sampled/structured bitmaps for larger groups "
         "(up to 400 in the thorough tier); bitmap length 0..3 bytes for wrong-length cases" % ("8" if q else "10"))
     res = ctx.seed
-    # ---- R1a: the named deviation must be found by TLC (guards the invariant against vacuity)
-    open(os.path.join(sd, "defect.cfg"), "w").write(CFG % dict(
-        defects='"paddingCounted"', full="1, 2, 3, 5", sampled="", mod=1, res=0, modemod=1, alpha="", abytes="", big="",
-        modes='"sel"', rest="INVARIANTS TypeOK Inv_MachineIsVerdict Inv_C17_Quorum"))
-    d = ctx.tlc(sd, "MC_HeaderSig", "defect.cfg", timeout=600, allow=("invariant",), count=False)
-    if d.error != "invariant:Inv_C17_Quorum":
-        ctx.broken.append("R1: with the deviation 'paddingCounted' TLC did not report Inv_C17_Quorum (got %r)" % (d.error,))
-    else:
-        ctx.cov(design_counterexample_found_with_deviation="paddingCounted -> Inv_C17_Quorum violated")
-    lap("R1a defect run")
-    # ---- R1b (+ export for R2): intended design, invariants hold
     exe = ctx.go_build("vh-headersig")
+    c = ctx.vh(exe, ["config"], count_samples=False)
+    try:
+        maxrounds = int(c.stats["MaxRoundsWithoutCommittedStartInEpochBlock"])
+    except KeyError:
+        ctx.broken.append("could not read core.MaxRoundsWithoutCommittedStartInEpochBlock")
+        return
+    for f in ("Trace_HeaderSig.cfg", "TracePad_HeaderSig.cfg", "TraceObs_HeaderSig.cfg", "TracePadObs_HeaderSig.cfg"):
+        t = open(os.path.join(sd, f)).read().replace("MaxRoundsNoSoE = 50", "MaxRoundsNoSoE = %d" % maxrounds)
+        open(os.path.join(sd, f), "w").write(t)
+    # ---- R1a: the named deviations must be found by TLC (guards the invariant against vacuity)
+    for dev, extra in (("paddingCounted", dict(full="1, 2, 3, 5", nsfb="")), ("unsignedRoundDiff", dict(full="", nsfb="3"))):
+        open(os.path.join(sd, "defect.cfg"), "w").write(CFG % dict(
+            dict(defects='"%s"' % dev, maxrounds=maxrounds, sampled="", mod=1, res=0, modemod=1, alpha="", abytes="", big="",
+                 modes='"sel"', rest="INVARIANTS TypeOK Inv_MachineIsVerdict Inv_C17_Quorum"), **extra))
+        d = ctx.tlc(sd, "MC_HeaderSig", "defect.cfg", timeout=600, allow=("invariant",), count=False)
+        if d.error != "invariant:Inv_C17_Quorum":
+            ctx.broken.append("R1: with the deviation %r TLC did not report Inv_C17_Quorum (got %r)" % (dev, d.error))
+        else:
+            ctx.cov(**{"design_counterexample_found_with_deviation_" + dev: "Inv_C17_Quorum violated"})
+    lap("R1a defect runs")
+    # ---- R1b (+ export for R2): intended design, invariants hold
     beh = ctx.path("cases.ndjson")
     if q:
-        gen = dict(defects="", full="1, 2, 3, 4, 5, 6, 7, 8", sampled="9, 10", mod=32, res=res, modemod=8,
-                   alpha="17", abytes="1, 127, 255", big="63", modes=ALLMODES)
+        gen = dict(defects="", maxrounds=maxrounds, full="1, 2, 3, 4, 5, 6, 7, 8", sampled="9, 10", mod=32, res=res, modemod=8,
+                   alpha="17", abytes="1, 127, 255", big="63", nsfb="3, 9", modes=ALLMODES)
         g = ctx.tlc(sd, "MC_HeaderSig", _cfg(sd, "gen.cfg", gen, INVS + "\nACTION_CONSTRAINT EmitDone"), timeout=900,
                     behaviours_out=beh)
     else:
         # exhaustive model check of the whole space (all modes on every bitmap, groups 1..10, alphabets, 63 and 400)
-        full = dict(defects="", full="1, 2, 3, 4, 5, 6, 7, 8, 9, 10", sampled="", mod=1, res=0, modemod=1,
-                    alpha="11, 16, 17, 24", abytes="0, 1, 15, 127, 128, 254, 255", big="21, 63, 400", modes=ALLMODES)
+        full = dict(defects="", maxrounds=maxrounds, full="1, 2, 3, 4, 5, 6, 7, 8, 9, 10", sampled="", mod=1, res=0, modemod=1,
+                    alpha="11, 16, 17, 24", abytes="0, 1, 15, 127, 128, 254, 255", big="21, 63, 400", nsfb="3, 6, 9, 10, 63",
+                    modes=ALLMODES)
         r1 = ctx.tlc(sd, "MC_HeaderSig", _cfg(sd, "r1.cfg", full, INVS), timeout=1800, coverage=True)
         if r1.ok and never_taken(r1):
             ctx.broken.append("vacuity: actions never taken in R1: %s" % never_taken(r1))
@@ -107,7 +123,10 @@ def run(ctx):
             distinct_nontrivial=int(h.stats.get("distinct", 0)),
             real_results_by_class=h.stats.get("by_class"), accepted=h.stats.get("accepted"),
             accepted_with_padding_bits_set=h.stats.get("accepted_with_padding_bits"),
-            violating_cases=h.stats.get("violating_cases"))
+            violating_cases=h.stats.get("violating_cases"), header_kinds_replayed=h.stats.get("header_kinds"),
+            real_fallback_validator_said_true=h.stats.get("real_fallback_true"))
+    if h.rc == 0 and int(h.stats.get("real_fallback_true", 0)) == 0:
+        ctx.broken.append("R2: the real fallback validator never answered true -- header construction is wrong")
     if h.rc == 0 and int(h.stats.get("accepted", 0)) == 0:
         ctx.broken.append("R2: the real verifier accepted no header at all -- harness signatures are wrong")
     lap("R2 replay")
@@ -135,7 +154,10 @@ def run(ctx):
                     break
             return evs
         vlib.selftest_rejects(ctx, sd, "Trace_HeaderSig", "Trace_HeaderSig.cfg", tr, corrupt)
-    ctx.cov(rule="R2: one case per (group size n, bitmap byte string, fallback flag, set of members that really signed): every "
+    ctx.cov(rule="R2: one case per (group size n, bitmap byte string, header kind, set of members that really signed); header kind = "
+                 "(shard header / metablock, start of epoch or not, previous header in pool / storage / missing / wrong type, "
+                 "signed round difference in {-900,-1,0,3,49,50,51,900}) -- all 40 kinds x every honest signer count between the "
+                 "two thresholds for the fallback family, the two principal kinds (plain shard header, fallback metablock) elsewhere: every "
                  "bitmap of the expected length for the exhaustive sizes, a seed-dependent residue class for the sampled "
                  "sizes, byte-alphabet bitmaps for 11..24 members, prefix-shaped bitmaps around the threshold for 63/400 "
                  "members, wrong-length bitmaps, and dishonest aggregates (one signer dropped, leader dropped, one added, all, "
